@@ -151,6 +151,19 @@ row("<crate::support::scale::PrefixInput<'a, T> as parity_scale_codec::codec::In
     "&mut buffer[1..] in the same guarded arm (len >= 1)",
     requires=[{"test": "core::slice::<impl [T]>::is_empty", "truth": False}])
 
+PG = "crate::support::postgres::<impl postgres_types::FromSql<'a> for %s>::from_sql" % U
+row(PG + "::{closure#0}", "foreign", RUNWRAP,
+    "raw.try_into::<[u8; 2]>().unwrap() on the items of chunks_exact(2), which are exactly 2 bytes long (core "
+    "post-condition)")
+row(PG, "foreign", VIDX, "raw[i] inside `for i in (1..raw.len()).rev()`: 1 <= i < len (Rev<Range> post-condition)")
+row(PG, "foreign", VIDX + "~2", "raw[i - 1] in the same loop: i >= 1")
+row(PG, "foreign", VIDXM, "raw[i] = .. in the same loop")
+row(PG, "foreign", "core::str::traits::<impl core::ops::index::Index<I> for str>::index",
+    "&str[1..len-1] after `len >= 2 && starts_with('\"') && ends_with('\"')`: both ends are ASCII quotes, so 1 and "
+    "len-1 are char boundaries and 1 <= len-1",
+    requires=[{"cond": "Ge(len(),2)", "truth": True}, {"test": "core::str::<impl str>::starts_with", "truth": True},
+              {"test": "core::str::<impl str>::ends_with", "truth": True}])
+
 # ---- facades whose signature cannot express the failure (C20)
 row("crate::support::num_integer::<impl num_integer::Integer for %s>::lcm" % U, "foreign", OUNWRAP,
     "Integer::lcm returns Self: overflow of the inherent checked lcm cannot be expressed (documented facade panic)")
